@@ -85,8 +85,9 @@ class ErrorRate(ClassificationMoment):
         # TensorFlow is returning an (n,1) array, which results
         # in the subtraction in the 'error =' line generating an
         # (n,n) array
-        pred = np.squeeze(np.asarray(predictor(self.X)))
-        signed_errors = self.tags[_LABEL] - pred
+        # in float: labels and predictions in an unsigned (or boolean) dtype must not wrap around
+        pred = np.squeeze(np.asarray(predictor(self.X), dtype=np.float64))
+        signed_errors = self.tags[_LABEL].astype(np.float64) - pred
         total_fn_cost = np.sum(signed_errors[signed_errors > 0] * self.fn_cost)
         total_fp_cost = np.sum(-signed_errors[signed_errors < 0] * self.fp_cost)
         error_value = (total_fn_cost + total_fp_cost) / self.total_samples
